@@ -37,6 +37,7 @@ THEOREMS = [
     "Aio.Http.payloadFeed_encodeChunks",
     "Aio.C02.response_roundtrip_chunked",
     "Aio.C02.failed_source_no_terminator",
+    "Aio.C02.eof_inside_body",
 ]
 RULE = ("(content-coded chunked bodies {raw deflate, zlib, gzip} x both directions x segmentations {whole, cut behind every "
         "chunk-size line, at every chunk edge, k bytes, random, cuts near the start of the body}; Expect: 100-continue x body source "
@@ -84,6 +85,11 @@ TRUSTED_BASE = [
     "(their output is taken as 'what was sent')",
 ]
 ASSUMPTIONS = [
+    "trunc scenarios: the sender vanishes (handler raises between writes, or a clean FIN injected after N bytes at every chunk edge "
+    "and inside chunks / size lines / trailer section); with chunked or Content-Length framing a receiver whose read completes must "
+    "have the whole body; a close-delimited (HTTP/1.0) body may only ever be a prefix",
+    "Expect: 100-continue is recognised in any capitalisation by both ends (RFC 9110 10.1.1); user-supplied Expect headers of that "
+    "value are admissible",
     "codec scenarios: 'deflate' bodies are sent both zlib-wrapped (RFC 1950) and bare (RFC 1951, which aiohttp's receiver accepts by "
     "sniffing the first byte), gzip via gzip.compress; the outcome for the same wire bytes must not depend on the segmentation",
     "expect scenarios: a route-level expect handler may answer with a final response instead of 100 Continue; the request after it "
@@ -573,7 +579,9 @@ def admissible(case):
     """the application does not lie about framing (see ASSUMPTIONS) — outside this set the
     oracle judges only what the property still promises"""
     rq, rs = case["req"], case["resp"]
-    for k, _ in rq.get("hdrs", []):
+    for k, v in rq.get("hdrs", []):
+        if k.lower() == "expect" and v.lower() == "100-continue" and case["ver"] == [1, 1]:
+            continue   # the expectation token is case-insensitive (RFC 9110 10.1.1): same as expect100=True
         if k.lower() in ("content-length", "transfer-encoding", "connection", "expect", "content-encoding", "host"):
             return False
     for k, _ in rs.get("hdrs", []):
@@ -712,7 +720,10 @@ def direct_oracle(ctx, case, obs):
             desync = True
         elif m["rest"] and not m["rest"].startswith(b"HTTP/1."):
             wz = (st.get("prep") or [{}])[0].get("wz")
-            who = "compressor-flush" if wz and not (rs["kind"] == "stream" and not rs.get("obey_empty") and rs.get("n", 0)) else "handler-write"
+            handler_wrote = rs["kind"] == "stream" and not rs.get("obey_empty") and rs.get("n", 0)
+            # only the two understood causes get their (known) names; anything else is a different defect
+            who = ("handler-write" if handler_wrote else "compressor-flush" if wz
+                   else "body-of-" + rs["kind"] + "-response-written")
             j = m["rest"].find(b"HTTP/1.")
             junk = m["rest"] if j < 0 else m["rest"][:j]
             V(f"response-wire-desync/body-bytes-after-bodiless-head/{who}" if bodiless else f"response-wire-desync/surplus/{respclass(case, obs)}",
@@ -1066,6 +1077,8 @@ def gen_case(rng, big_ok=True):
         rq["compress"] = rng.choice([True, "deflate", "gzip"])
     if rng.random() < 0.12 and ver == [1, 1]:
         rq["expect100"] = True
+    elif rng.random() < 0.05 and ver == [1, 1]:
+        rq["hdrs"].append(["Expect", rng.choice(["100-Continue", "100-CONTINUE", "100-continue"])])
     # inadmissible / error-path ingredients (kept rare; judged by the model comparison)
     r = rng.random()
     if r < 0.03:
@@ -1126,6 +1139,9 @@ def judge(ctx, case, tmpdir, lines, pending):
         obs = {"client_refused": innermost(e), "cli": {}, "srv": [], "state": {}}
     except Exception as e:  # noqa: anything else escaping the client API is outside the model's error enum
         obs = {"client_refused": "E_OTHER(" + type(e).__name__ + ")", "cli": {}, "srv": [], "state": {}}
+    obs.setdefault("state", {}); obs.setdefault("cli", {}); obs.setdefault("srv", [])
+    if obs.get("quiescent"):
+        ctx.hit("exchange-quiescent")
     direct_oracle(ctx, case, obs)
     ctx.hit("req:" + case["req"]["body"]["kind"], "resp:" + case["resp"]["kind"], "ver:%d.%d" % tuple(case["ver"]),
             "status:%d" % case["resp"]["status"], "method:" + case["req"]["method"], "seg:" + case["seg"][0][0] + "/" + case["seg"][1][0])
@@ -1133,6 +1149,8 @@ def judge(ctx, case, tmpdir, lines, pending):
         ctx.hit("client-exc:" + obs["cli"]["exc"])
     for e in obs.get("srv_errs", []):
         ctx.hit("server-log:" + e)
+    if obs.get("quiescent"):
+        return obs   # the exchange never finished (judged by the oracle): no complete observation to compare
     # ---- request direction vs model
     rl = req_line(case, obs)
     ir = impl_req_canon(case, obs)
@@ -1254,7 +1272,9 @@ def compare_resp(ctx, case, obs, mo, impl):
     # client's view: real parser's message.should_close -> pool decision
     rel = obs.get("release_log") or []
     cli = obs.get("cli", {})
-    if rel and "exc" not in cli:
+    # (a request whose user-supplied framing headers lie about its body leaves bytes behind: not modelled here)
+    user_req_framing = any(k.lower() in ("content-length", "transfer-encoding") for k, _ in case["req"].get("hdrs", []))
+    if rel and "exc" not in cli and not user_req_framing:
         client_closes = rel[0]["force"] or rel[0]["arg"] or rel[0]["proto"]
         model_closes = m["cclose"] == "1" or bool(case.get("fc"))
         # bytes left over on the connection also force a close (ResponseHandler.should_close)
@@ -1291,6 +1311,15 @@ def feed_lines(ctx, samples):
             impl, _ = H.run_impl(cfg, segs, eof)
             lines.append(H.model_line(cfg, segs, eof))
             meta.append((case, impl, what))
+            # the same message cut off by the end of the connection (every kind of position: chunk edges included)
+            j = data.find(b"\r\n\r\n")
+            if j > 0 and len(data) > j + 5:
+                edges = [m.end() + j + 4 for m in re.finditer(rb"\r\n", data[j + 4:])]
+                cut = rng.choice(edges) if edges and rng.random() < 0.6 else rng.randrange(j + 4, len(data))
+                tsegs = [data[:cut]]
+                impl2, _ = H.run_impl(cfg, tsegs, True)
+                lines.append(H.model_line(cfg, tsegs, True))
+                meta.append((case, impl2, what + "-truncated+eof"))
     outs = ctx.model(lines)
     if outs is None:
         return
